@@ -227,10 +227,9 @@ def run(ctx):
                        "cases whose normalising coefficient matrix has condition number > 1e6 are skipped and counted",
                        "class path: periodogram convention only (the correlogram path applies a window correction to the poles)"]
     quick = ctx.tier == "quick"
-    consts = {"Orders": {1, 2, 3} if quick else {1, 2, 3, 4, 6, 8}, "Chans": {2, 3} if quick else {2, 3, 5},
+    # (the number of root compositions grows like |Comp(n)|^Nch: sizes are chosen to keep each instance below ~10^6 states)
+    consts = {"Orders": {1, 2, 3} if quick else {1, 2, 3, 4}, "Chans": {2, 3},
               "Refs": {1, 2} if quick else {1, 2, 3, 5}, "Signs": {-1, 1}, "Extra": {0, 2}, "DtIds": {1, 2}, "NfIds": {1, 2}}
-    if not quick:
-        consts["Orders"] = {1, 2, 3, 4}
     mod, cfg = ctx.model("PolyId", "rational", consts, invariants=["OnePerRoot", "NaNElsewhere", "SlotsGrow", "OrderWithinMax"],
                          action_constraints=["Emit"], view="View")
     r = ctx.tlc(mod, cfg, raw=True)
@@ -252,7 +251,7 @@ def run(ctx):
                                     "conditioned to be judged")
     if not quick:
         # orders 6 and 8 on a thinner grid of the other parameters
-        consts2 = {"Orders": {6, 8}, "Chans": {2}, "Refs": {1, 2}, "Signs": {-1, 1}, "Extra": {0}, "DtIds": {1}, "NfIds": {2}}
+        consts2 = {"Orders": {6, 8}, "Chans": {2}, "Refs": {2, 3}, "Signs": {-1, 1}, "Extra": {0}, "DtIds": {1}, "NfIds": {2}}
         mod, cfg = ctx.model("PolyId", "rational_hi", consts2, invariants=["OnePerRoot", "NaNElsewhere", "SlotsGrow"],
                              action_constraints=["Emit"], view="View")
         r = ctx.tlc(mod, cfg, raw=True)
@@ -260,6 +259,18 @@ def run(ctx):
         rng = np.random.default_rng(ctx.seed + 1)
         lines = [lines[i] for i in sorted(rng.choice(len(lines), size=min(3000, len(lines)), replace=False))]
         chunks = [(ctx.seed * 5 + 1000 * n, ch) for n, ch in enumerate(core.chunks(lines, max(1, len(lines) // 64)))]
+        with mp.get_context("fork").Pool(16) as pool:
+            for col in pool.map(_chunk, chunks):
+                ctx.merge(col)
+    if not quick:
+        consts3 = {"Orders": {1, 2}, "Chans": {5}, "Refs": {3, 5}, "Signs": {-1, 1}, "Extra": {0}, "DtIds": {1}, "NfIds": {2}}
+        mod, cfg = ctx.model("PolyId", "rational_5ch", consts3, invariants=["OnePerRoot", "NaNElsewhere", "SlotsGrow"],
+                             action_constraints=["Emit"], view="View")
+        r = ctx.tlc(mod, cfg, raw=True)
+        lines = sorted(r.transitions)
+        rng = np.random.default_rng(ctx.seed + 2)
+        lines = [lines[i] for i in sorted(rng.choice(len(lines), size=min(3000, len(lines)), replace=False))]
+        chunks = [(ctx.seed * 9 + 1000 * n, ch) for n, ch in enumerate(core.chunks(lines, max(1, len(lines) // 64)))]
         with mp.get_context("fork").Pool(16) as pool:
             for col in pool.map(_chunk, chunks):
                 ctx.merge(col)
